@@ -21,6 +21,7 @@ import (
 	"flag"
 	"fmt"
 	"net/http"
+	"net/url"
 	"os"
 	"os/signal"
 	"strconv"
@@ -255,7 +256,14 @@ func newCollectorCommand() *cobra.Command {
 
 func flowRecordHandler(w http.ResponseWriter, r *http.Request) {
 	if r.Method == "GET" {
-		countP := r.URL.Query().Get("count")
+		// r.URL.Query() silently drops what it cannot parse: a malformed query would be
+		// answered as if it did not ask for anything.
+		query, err := url.ParseQuery(r.URL.RawQuery)
+		if err != nil {
+			http.Error(w, "Invalid query", http.StatusBadRequest)
+			return
+		}
+		countP := query.Get("count")
 		var count int
 		if countP != "" {
 			var err error
@@ -266,7 +274,7 @@ func flowRecordHandler(w http.ResponseWriter, r *http.Request) {
 		} else {
 			count = -1
 		}
-		format := r.URL.Query().Get("format")
+		format := query.Get("format")
 		if format == "" {
 			format = "json"
 		}
